@@ -40,7 +40,9 @@ func corpus() []core.Case {
 			"fmt 0", "fmt -1", "fmt 35", "fmt 36", "fmt 9223372036854775807", "fmt -9223372036854775808",
 			"newgen -1", "newgen 0", "newgen 1", "newgen 2", "newgen 16", "newgen 22", "newgen 23", "newgen 100",
 			"compose 18 0 0", "compose 18 2199023255551 262143", "compose 22 2199023255552 5", "compose 2 -1 3", "compose 22 2199023255551 4194303",
-			"b32 -1", "b32 5"}, Tag: "corpus"},
+			"b32 -1", "b32 5",
+			"millis 0", "millis 1", "millis -1", "millis 999999", "millis 1000000", "millis 1000001", "millis -999999", "millis -1000000", "millis -1000001",
+			"millis 9223372036854775807", "millis -9223372036854775808", "millis 2199023255551000000", "millis 2199023255551999999"}, Tag: "corpus"},
 		{Lines: []string{"@ C20 str " + hx([]byte(randz.CHAR_SET)), "gen 0 0", "gen 5 0", "gen 5 9223372036854775807 0", "gen 13 0", "gen 3", "gen -1 0", "gen 1 0"}, Tag: "corpus"},
 		{Lines: []string{"@ C20 str " + hx([]byte("你好é😀\xff")), "gen 4 " + strconv.FormatInt(0x0123456789abcdef, 10), "gen 30 1 2 3"}, Tag: "corpus"},
 		{Lines: []string{"@ C20 str -", "gen 1 0"}, Tag: "corpus"},
@@ -104,6 +106,21 @@ func genID(r *core.Rand) core.Case {
 	n := r.Range(1, 12)
 	negDone := false
 	for i := 0; i < n; i++ {
+		if r.Chance(6) { // Duration.Milliseconds at boundaries, negatives included
+			var d int64
+			switch r.Pick(40, 30, 20, 10) {
+			case 0:
+				d = int64(r.Range(-3, 3))*1000000 + int64(r.Range(-2, 2))
+			case 1:
+				d = int64(r.Uint64()>>uint(1+r.Intn(62))) * int64(1-2*r.Intn(2))
+			case 2:
+				d = []int64{1<<63 - 1, -1 << 63, -1<<63 + 1, 999999, -999999, 1000000, -1000000, 0}[r.Intn(8)]
+			case 3:
+				d = (int64(r.Uint64()>>24))*1000000 + int64(r.Range(-1, 1))
+			}
+			lines = append(lines, fmt.Sprintf("millis %d", d))
+			continue
+		}
 		switch r.Pick(20, 45, 10, 10, 15) {
 		case 0:
 			v := randID(r)
@@ -462,9 +479,12 @@ func genStrLarge(r *core.Rand, tier string) core.Case {
 		bits++
 	}
 	per := 63 / bits
-	n := []int{255, 256, 257, 1000, 1024, 1025, 4096, 4097, 5000}[r.Intn(9)]
+	n := []int{255, 256, 257, 1000, 1024, 1025, 4096, 4097, 5000, 20000}[r.Intn(10)]
 	if r.Chance(30) {
 		n = r.Range(200, 5000)
+	}
+	if tier == "thorough" && r.Chance(10) {
+		n = []int{65535, 65536, 65537, 100000}[r.Intn(4)]
 	}
 	need := (n + per - 1) / per
 	k := need*(1<<uint(bits))/len(set)*12/10 + 8
